@@ -29,7 +29,7 @@ static HANGS: AtomicU64 = AtomicU64::new(0);
 /// time is reported as a violation (the thread is abandoned).  After three such
 /// reports the remaining cases of the run are skipped (each would cost the full
 /// watchdog time and the verdict is already decided).
-fn guarded(idx: u64, rng: &mut Rng, ctx: &Ctx, f: fn(u64, &mut Rng, &Ctx) -> CaseOut) -> CaseOut {
+pub fn guarded(idx: u64, rng: &mut Rng, ctx: &Ctx, f: fn(u64, &mut Rng, &Ctx) -> CaseOut) -> CaseOut {
     if HANGS.load(Ordering::Relaxed) >= 3 {
         let mut o = CaseOut::default();
         o.count("cases_skipped_after_watchdog", 1);
@@ -248,7 +248,7 @@ fn run_sim(idx: u64, rng: &mut Rng, ctx: &Ctx, cfg: DnsCfg, part: &str, tag: &st
     out
 }
 
-fn resolve_body(i: u64, r: &mut Rng, c: &Ctx) -> CaseOut {
+pub fn resolve_body(i: u64, r: &mut Rng, c: &Ctx) -> CaseOut {
     let cfg = cfg_resolve(r);
     run_sim(i, r, c, cfg, "resolve", "")
 }
@@ -256,7 +256,7 @@ fn wrong_one_body(i: u64, r: &mut Rng, c: &Ctx) -> CaseOut {
     let (cfg, k) = cfg_wrong_one(r);
     run_sim(i, r, c, cfg, "wrong-one", &format!("{:?}", k))
 }
-fn fuzz_body(i: u64, r: &mut Rng, c: &Ctx) -> CaseOut {
+pub fn fuzz_body(i: u64, r: &mut Rng, c: &Ctx) -> CaseOut {
     let cfg = cfg_fuzz(r, i);
     let t = cfg.trunc_at.unwrap_or(0);
     run_sim(i, r, c, cfg, "fuzz", &format!("cut@{}", t / 20 * 20))
